@@ -100,7 +100,7 @@ CeilLog2(x) == IF x <= 1 THEN 0 ELSE 1 + CeilLog2((x + 1) \div 2)
 \* C13: a woken child is polled within a number of collection polls linear in the population
 WaitBound(s) == WaitMul * s.peak + WaitAdd
 \* C13: child polls inside one collection poll are bounded
-\* (counted since the call began or since the last completion inside it: a call may go on for as long as children
+\* (counted since the call began, since the last completion inside it or since the last item pulled from upstream: a call may go on for as long as children
 \*  complete - joins, ordered collections, for_each - but between two completions it visits every group at most once,
 \*  with a budget of 61 child polls each; the unbounded kinds have at most log2(peak) + 2 groups: a new group doubles the capacity
 \*  of the last one and is created only when that one is full)
@@ -385,7 +385,8 @@ StepUp(s, e) ==
                 s2 == IF s.kind \in {"bo", "tbo"}
                       THEN Chk(s1, Pop(s1) + 1 <= s.n, "C16", "more than n items pulled but not yet yielded")
                       ELSE s1
-            IN Accept(s2, e.c, FALSE)
+            \* (for_each_concurrent scans its futures again after every item it pulls: the work bound counts from here)
+            IN [Accept(s2, e.c, FALSE) EXCEPT !.work = 0]
        [] e.resp = "X" ->     \* upstream error item: must be forwarded exactly once, as an item
             Bump([s0 EXCEPT !.tok = @ \cup {<<e.c, -1>>}, !.errs = @ \cup {<<e.c, -1>>}, !.qn = 0, !.act = TRUE])
        [] OTHER -> s0
